@@ -22,11 +22,34 @@ import (
 
 	"verifharness/ev"
 	"verifharness/sched"
+	"verifharness/vclock"
 )
 
-func install(s *sched.Session) {
+// virtual time unit of the deadline operations
+const unit = time.Second
+
+var vbase = time.Date(2033, 3, 3, 0, 0, 0, 0, time.UTC)
+
+// dlOp is one SetReadDeadline call of the deadliner task on the virtual clock.
+type dlOp struct {
+	Kind string // "past", "zero", "future"
+	D    int    // future: units from the virtual now at the call
+	// AfterTimer: the call is made only once a timer has fallen due since the
+	// previous call (its callback dispatched, not necessarily run) - the caller
+	// that reacts to an expiry by changing the deadline
+	AfterTimer bool
+}
+
+func install(s *sched.Session, clock *vclock.Clock) {
 	packetio.VerifSetHooks(&packetio.VerifHooks{Yield: s.Yield, Spawn: s.Spawn, Adopt: s.Adopt, Retire: s.Retire})
-	deadline.VerifSetHooks(&deadline.VerifHooks{Yield: s.Yield, Spawn: s.Spawn, Adopt: s.Adopt, Retire: s.Retire})
+	h := &deadline.VerifHooks{Yield: s.Yield, Spawn: s.Spawn, Adopt: s.Adopt, Retire: s.Retire}
+	if clock != nil {
+		// future deadlines run on a virtual clock: a timer that falls due becomes a
+		// callback task, so "fired but not yet run" is a schedulable state
+		h.Now = clock.Now
+		h.AfterFunc = func(d time.Duration, f func()) deadline.VerifTimer { return clock.AfterFunc(d, f) }
+	}
+	deadline.VerifSetHooks(h)
 }
 
 func uninstall() {
@@ -49,11 +72,13 @@ type scenario struct {
 	Readers  []int   // reads per reader
 	Writers  [][]int // payload sizes per writer
 	Close    bool
-	Deadline int // 0 none, 1 past, 2 past then zero
+	Deadline int // 0 none, 1 past, 2 past then zero, 3 the operations of DL on the virtual clock
+	DL       []dlOp
+	Ticks    []int // virtual clock advances (units) of the clock task
 }
 
 func (sc scenario) String() string {
-	return fmt.Sprintf("readers=%v short=%v writers=%v close=%v deadline=%d", sc.Readers, sc.ShortBuf, sc.Writers, sc.Close, sc.Deadline)
+	return fmt.Sprintf("readers=%v short=%v writers=%v close=%v deadline=%d %v ticks=%v", sc.Readers, sc.ShortBuf, sc.Writers, sc.Close, sc.Deadline, sc.DL, sc.Ticks)
 }
 
 func genScenario(t *rapid.T) scenario {
@@ -73,8 +98,38 @@ func genScenario(t *rapid.T) scenario {
 		sc.Writers = append(sc.Writers, sizes)
 	}
 	sc.Close = rapid.IntRange(0, 2).Draw(t, "close") == 0
-	if rapid.IntRange(0, 3).Draw(t, "dl") == 0 {
+	switch rapid.IntRange(0, 7).Draw(t, "dl") {
+	case 0, 1:
 		sc.Deadline = rapid.IntRange(1, 2).Draw(t, "dlkind")
+	case 2, 3:
+		sc.Deadline = 3
+		for i, n := 0, rapid.IntRange(1, 4).Draw(t, "dlops"); i < n; i++ {
+			switch rapid.IntRange(0, 5).Draw(t, "dlop") {
+			case 0:
+				sc.DL = append(sc.DL, dlOp{Kind: "past"})
+			case 1, 2:
+				sc.DL = append(sc.DL, dlOp{Kind: "zero"})
+			default:
+				sc.DL = append(sc.DL, dlOp{Kind: "future", D: rapid.SampledFrom([]int{1, 2, 5}).Draw(t, "d")})
+			}
+			if i > 0 && rapid.IntRange(0, 2).Draw(t, "afterTimer") == 0 {
+				sc.DL[i].AfterTimer = true
+			}
+		}
+		sc.Ticks = rapid.SliceOfN(rapid.IntRange(0, 5), 1, 6).Draw(t, "ticks")
+		if rapid.Bool().Draw(t, "focus") {
+			// nothing but parked readers, the deadliner, the clock and the timer callbacks
+			sc.Writers, sc.Close = nil, false
+			sc.Readers = sc.Readers[:1]
+			sc.Readers[0] = 1
+			if rapid.Bool().Draw(t, "rearm") {
+				// arm, let it fall due, clear or move into the past, arm again
+				a := rapid.SampledFrom([]int{1, 2}).Draw(t, "a")
+				mid := dlOp{Kind: rapid.SampledFrom([]string{"zero", "past"}).Draw(t, "mid"), AfterTimer: rapid.Bool().Draw(t, "midAfterTimer")}
+				sc.DL = []dlOp{{Kind: "future", D: a}, mid, {Kind: "future", D: rapid.SampledFrom([]int{1, 2}).Draw(t, "b")}}
+				sc.Ticks = append([]int{a}, sc.Ticks...)
+			}
+		}
 	}
 	return sc
 }
@@ -97,6 +152,7 @@ type outcome struct {
 	closed    bool
 	dlPast    bool // deadline currently in the past
 	dlEverSet bool
+	dlLast    time.Time // virtual-clock scenarios: the value of the last completed SetReadDeadline
 }
 
 // labelling chooser: wraps a chooser and watches for the interesting windows.
@@ -141,7 +197,33 @@ func (w *watcher) Pick(s *sched.Session, enabled []*sched.Task) *sched.Task {
 	if t.Name == "deadliner" && (blocked >= 1 || atSelect >= 1) {
 		w.c.Label("deadline-vs-waiting-reader")
 	}
+	if t.Name == "deadliner" {
+		for _, e := range enabled {
+			if strings.HasPrefix(e.Name, "cb") {
+				// a timer has fired, its callback has not finished, and the deadline is being changed
+				w.c.Label("set-while-callback-dispatched")
+				w.c.NonTrivial()
+			}
+		}
+	}
 	return t
+}
+
+// readWithin runs one Read on a goroutine of its own and reports whether it
+// returned in time (a Read that the oracle says cannot block must not hang the
+// harness; the deferred Close releases it).
+func readWithin(b *packetio.Buffer, buf []byte, d time.Duration) (error, bool) {
+	ch := make(chan error, 1)
+	go func() {
+		_, err := b.Read(buf)
+		ch <- err
+	}()
+	select {
+	case err := <-ch:
+		return err, true
+	case <-time.After(d):
+		return nil, false
+	}
 }
 
 // inWindow: the reader found the buffer empty, released the lock and has not
@@ -162,7 +244,11 @@ func inWindow(e *sched.Task) bool {
 // fail is called with a message on violation.
 func runScenario(sc scenario, ch sched.Chooser, c *ev.Case, logf func(string, ...any), fail func(string, ...any)) {
 	s := sched.New()
-	install(s)
+	var clock *vclock.Clock
+	if sc.Deadline == 3 {
+		clock = vclock.New(vbase)
+	}
+	install(s, clock)
 	b := packetio.NewBuffer()
 	out := &outcome{writesOK: map[uint32]int{}, sizes: map[uint32]int{}}
 	for w, sizes := range sc.Writers {
@@ -257,7 +343,56 @@ func runScenario(sc scenario, ch sched.Chooser, c *ev.Case, logf func(string, ..
 			out.mu.Unlock()
 		})
 	}
-	if sc.Deadline > 0 {
+	if sc.Deadline == 3 {
+		var cbSpawned int
+		var clockDone bool
+		s.Go("deadliner", func() {
+			seen := 0
+			for _, op := range sc.DL {
+				for op.AfterTimer {
+					out.mu.Lock()
+					ok := cbSpawned > seen || clockDone
+					out.mu.Unlock()
+					if ok {
+						break
+					}
+					s.Yield("deadliner:await-timer")
+				}
+				out.mu.Lock()
+				seen = cbSpawned
+				out.mu.Unlock()
+				var to time.Time
+				switch op.Kind {
+				case "past":
+					to = clock.Now().Add(-unit)
+				case "future":
+					to = clock.Now().Add(time.Duration(op.D) * unit)
+				}
+				_ = b.SetReadDeadline(to)
+				out.mu.Lock()
+				out.dlLast, out.dlEverSet = to, true
+				out.mu.Unlock()
+			}
+		})
+		nCb := 0
+		s.Go("clockd", func() {
+			for _, dt := range sc.Ticks {
+				clock.Advance(time.Duration(dt) * unit)
+				for clock.Pending() > 0 {
+					cb := clock.Take(0)
+					nCb++
+					s.Go(fmt.Sprintf("cb%d", nCb), cb.Run)
+					out.mu.Lock()
+					cbSpawned++
+					out.mu.Unlock()
+				}
+				s.Yield("clockd:tick")
+			}
+			out.mu.Lock()
+			clockDone = true
+			out.mu.Unlock()
+		})
+	} else if sc.Deadline > 0 {
 		s.Go("deadliner", func() {
 			_ = b.SetReadDeadline(time.Unix(1, 0))
 			out.mu.Lock()
@@ -291,6 +426,13 @@ func runScenario(sc scenario, ch sched.Chooser, c *ev.Case, logf func(string, ..
 	count := b.Count()
 	out.mu.Lock()
 	closed, dlPast := out.closed, out.dlPast
+	if clock != nil {
+		// every timer that is due at the virtual now has been run as a task
+		dlPast = !out.dlLast.IsZero() && !out.dlLast.After(clock.Now())
+		if c != nil && dlPast {
+			c.Label("virtual-deadline/passed-at-quiescence")
+		}
+	}
 	reads := append([]readResult(nil), out.reads...)
 	nWrites := len(out.writesOK)
 	out.mu.Unlock()
@@ -353,7 +495,11 @@ func runScenario(sc scenario, ch sched.Chooser, c *ev.Case, logf func(string, ..
 		default:
 			var ne net.Error
 			if errors.As(r.err, &ne) && ne.Timeout() {
-				if sc.Deadline == 0 {
+				nonZero := sc.Deadline == 1 || sc.Deadline == 2
+				for _, op := range sc.DL {
+					nonZero = nonZero || op.Kind != "zero"
+				}
+				if !nonZero {
 					fail("C08: Read timed out but no read deadline was ever set\n%s", s.Describe())
 					return
 				}
@@ -412,11 +558,42 @@ func runScenario(sc scenario, ch sched.Chooser, c *ev.Case, logf func(string, ..
 			fail("C08: second Read after drain returned %v, want io.EOF", err)
 			return
 		}
+	} else if clock != nil && !dlPast && !out.dlLast.IsZero() {
+		// the deadline in force is still ahead: let it pass; every parked reader must
+		// then be released and further reads must time out
+		clock.Advance(100 * unit)
+		for clock.Pending() > 0 {
+			clock.Take(0).Run()
+		}
+		if left := s.Drain(2 * time.Second); left > 0 {
+			fail("C08: %d task(s) are still blocked 2 s after the read deadline %v has passed (virtual clock %v)\n%s", left, out.dlLast.Sub(vbase), clock.Offset(), s.Describe())
+			return
+		}
+		buf := make([]byte, 64)
+		for i := 0; i < count+2; i++ {
+			err, returned := readWithin(b, buf, 2*time.Second)
+			if !returned {
+				fail("C08: a Read started after the read deadline %v had passed (virtual clock %v, every timer callback has run) is still blocked after 2 s\n%s", out.dlLast.Sub(vbase), clock.Offset(), s.Describe())
+				return
+			}
+			var ne net.Error
+			if !errors.As(err, &ne) || !ne.Timeout() {
+				fail("C08: Read %d after the read deadline passed returned %v, want a timeout error", i+1, err)
+				return
+			}
+		}
+		if c != nil {
+			c.Label("virtual-deadline/passed-after-settle")
+		}
 	} else if dlPast {
 		// a passed deadline keeps failing reads until it is changed
 		buf := make([]byte, 64)
 		for i := 0; i < 2; i++ {
-			_, err := b.Read(buf)
+			err, returned := readWithin(b, buf, 2*time.Second)
+			if !returned {
+				fail("C08: a Read started while the read deadline is in the past is still blocked after 2 s\n%s", s.Describe())
+				return
+			}
 			var ne net.Error
 			if !errors.As(err, &ne) || !ne.Timeout() {
 				fail("C08: Read %d with a passed deadline returned %v, want a timeout error", i+1, err)
@@ -426,11 +603,11 @@ func runScenario(sc scenario, ch sched.Chooser, c *ev.Case, logf func(string, ..
 	}
 }
 
-const ruleC08 = "rapid-drawn scenario (1..3 readers x 1..2 reads, 1..2 writers x 1..3 writes, optional Close task, optional SetReadDeadline(past[,zero]) task) and a rapid-drawn schedule (strategies uniform / run-length / hold-at-block / priority-with-change-points) over every lock, unlock, channel and select operation of the yield-instrumented packetio/buffer.go and deadline/deadline.go; oracle at true quiescence: no reader parked in Read while Count()>0, none after Close returned, none under a passed deadline, reads+buffered==writes with intact, unduplicated, per-writer-ordered packets, no panic, then drain to EOF; non-trivial = >=2 readers were between their emptiness check and the blocking select when a writer took the lock, or Close ran against a waiting reader; distinct by hash of scenario + step trace"
+const ruleC08 = "rapid-drawn scenario (1..3 readers x 1..2 reads, 1..2 writers x 1..3 writes, optional Close task, optional SetReadDeadline(past[,zero]) task, or a deadliner task with 1..4 SetReadDeadline(past | zero | now+1,2,5 units) on a virtual clock plus a clock task whose advances turn every due timer into a callback task, so 'the timer has fired, its callback has not run yet, and the deadline is changed' is schedulable) and a rapid-drawn schedule (strategies uniform / run-length / hold-at-block / priority-with-change-points) over every lock, unlock, channel and select operation of the yield-instrumented packetio/buffer.go and deadline/deadline.go; oracle at true quiescence: no reader parked in Read while Count()>0, none after Close returned, none under a passed deadline (virtual clock: the last value set has passed and every due callback has run; a deadline still ahead is then made to pass: all readers must return and further reads time out), reads+buffered==writes with intact, unduplicated, per-writer-ordered packets, no panic, then drain to EOF; non-trivial = >=2 readers were between their emptiness check and the blocking select when a writer took the lock, or Close ran against a waiting reader; distinct by hash of scenario + step trace"
 
 func TestC08Schedules(t *testing.T) {
 	r := ev.New("C08", "schedules", ruleC08)
-	r.Essential = []string{"two-readers-in-window-at-write", "close-vs-waiting-reader", "deadline-vs-waiting-reader", "strategy/hold-at-block"}
+	r.Essential = []string{"two-readers-in-window-at-write", "close-vs-waiting-reader", "deadline-vs-waiting-reader", "strategy/hold-at-block", "set-while-callback-dispatched", "virtual-deadline/passed-at-quiescence"}
 	r.MinForEssential = 300
 	r.Assume("yield granularity = the synchronisation operations of packetio/buffer.go and deadline/deadline.go; goroutine wait states as reported by runtime.Stack")
 	r.Check(t, func(t *rapid.T, c *ev.Case) {
